@@ -85,7 +85,7 @@ int env_ev_console (io_event_t *ev, int n) {
   return n + 1;
 }
 /* what async_runtime_wait() of lib/async/async_runtime_epoll.c reports when the heart-beat timer thread called
- * async_runtime_wakeup(): the eventfd value 1 decodes to completion_key 0, data 1, no context */
+ * async_runtime_wakeup(): the notification record 1 decodes to completion_key 0, data 1, no context */
 int env_ev_wakeup (io_event_t *ev, int n) {
   memset (&ev[n], 0, sizeof ev[n]);
   ev[n].fd = -1; ev[n].completion_key = 0; ev[n].event_type = EVENT_READ; ev[n].bytes_transferred = 1;
